@@ -6,8 +6,8 @@ T={
  'C01':('exploration','stateful history generation (proptest) + generated delivery plan; metamorphic: all replicas/fresh copy expose equal state','§6 C01'),
  'C03':('exploration','stateful history generation with rich JSON; round trip commit -> reopen, full observation compared','§6 C03'),
  'C04':('exploration','stateful history generation; round trip update -> read against the submitted document, idempotence, empty commit','§6 C04'),
- 'C05':('exploration','history generation; differential against a reference revision-tree rule rebuilt from raw block files','§6 C05'),
- 'C06':('exploration','history generation; invariant over shown arrays vs union of live versions rebuilt by a reference script applier','§6 C06'),
+ 'C05':('exploration','generated and exhaustively enumerated revision trees under all/many insertion orders + histories; differential against a reference rule rebuilt from raw block files','§6 C05'),
+ 'C06':('exploration','exhaustive enumeration of merge_arrays on duplicate-free pairs/triples + histories; invariant over shown arrays vs union of live versions rebuilt by a reference script applier','§6 C06'),
  'C07':('exploration','conflict-biased history generation; oracle on resolve_as outcome + convergence after exchange','§6 C07'),
  'C08':('exploration','history generation incl. low-level calls; every op and getter under panic guard and deadlock watchdog','§6 C08'),
  'C11':('exploration','history generation; storage invariants (name=SHA-256, append-only, byte identity) after every step','§6 C11'),
@@ -15,7 +15,13 @@ T={
  'C13':('exploration','history generation; commit-graph invariants from raw block files vs API','§6 C13'),
  'C14':('exploration','history generation; time travel to recorded head sets compared with recorded observations','§6 C14'),
  'C15':('exploration','history generation; unstage / export / replay round trips and refusal of reload with staged changes','§6 C15'),
- 'C19':('exploration','history generation; revision strings parse/print round trip','§6 C19'),
+ 'C02':('exploration','history generation + permuted one-file-at-a-time delivery (every prefix; all permutations for small graphs); differential against a reference causal closure and metamorphic incremental-vs-reload','§6 C02'),
+ 'C09':('fault_enumeration','history generation; for every commit/meld every write boundary (crash snapshot) and every single/repeated write failure is enumerated; oracle: closure equivalence, order pack-before-block, retry equals fault-free twin','§6 C09'),
+ 'C10':('fault_enumeration','history generation; generated and swept faults on stored items (bit flips, truncation, deletion, junk injection); differential against the reference closure of intact items','§6 C10'),
+ 'C16':('exploration','exhaustive enumeration of array pairs (diff/patch round trip, two appliers) + generated version chains under cache capacities 1/2/3/16','§6 C16'),
+ 'C17':('exploration','generated key/value operation sequences against a write-once map model over 12 backend stacks + same generated history over every stack (differential)','§6 C17'),
+ 'C18':('exploration','generated histories re-executed in child processes under different pool sizes / cache capacities / listing orders / hash seeds; metamorphic: identical state digests','§6 C18'),
+ 'C19':('exploration','generated revision pools via the Revision API against a reference identifier function and order (laws over triples) + history-level parse/print round trip','§6 C19'),
 }
 NA={}
 import sys
